@@ -408,9 +408,10 @@ def minmax_cases(chk, drv):
                 raise ValueError('getMin/getMax changed the index arrays of the caller: %s %s' % (a[1], a[2]))
             lmn = lmx = None
             if not cplx:
-                try:
-                    lmn, lmx = float(g.getMin()), float(g.getMax())
-                except ValueError:
+                # a process that owns no points contributes the neutral elements (finding F23: it used to raise, and the other
+                # processes then waited for it in the reduction); the model marks such a block as 'raise' = "no value"
+                lmn, lmx = float(g.getMin()), float(g.getMax())
+                if g.getAllData().size == 0 and lmn == float('inf') and lmx == float('-inf'):
                     lmn = lmx = 'raise'
             return {'min': None if mn is None else float(mn), 'max': None if mx is None else float(mx),
                     'lmin': lmn, 'lmax': lmx, 'coords': coords, 'rank': comm.Get_rank(), 'size': int(g.getAllData().size)}
